@@ -19,8 +19,11 @@ def block_candidates1(class_name: str):
 def block_candidates2(class_name: str):
     return re.match(r'^[a-z]', class_name, re.I)
 
-def bem(node: AbbreviationNode, ancestors: list, config: Config):
-    lookup = {}
+def bem(node: AbbreviationNode, ancestors: list, config: Config, lookup: dict=None):
+    # `lookup` memoizes parsed BEM data of nodes; it must not outlive the
+    # abbreviation being transformed
+    if lookup is None:
+        lookup = {}
     expand_class_names(node, lookup)
     expand_short_notation(node, ancestors, config, lookup)
 
@@ -61,7 +64,7 @@ def expand_short_notation(node: AbbreviationNode, ancestors: list, config: Confi
         # parse element definition (could be only one)
         m = re_element.match(cl)
         if m:
-            prefix = ''.join((get_block_name(path, len(m.group(1)), config.context) + options.get('bem.element') + m.group(2)))
+            prefix = ''.join((get_block_name(path, len(m.group(1)), config.context, lookup) + options.get('bem.element') + m.group(2)))
             class_names.append(prefix)
             cl = cl[len(m.group(0)):]
 
@@ -69,7 +72,7 @@ def expand_short_notation(node: AbbreviationNode, ancestors: list, config: Confi
         m = re_modifier.match(cl)
         if m:
             if not prefix:
-                prefix = get_block_name(path, len(m.group(1)))
+                prefix = get_block_name(path, len(m.group(1)), None, lookup)
                 class_names.append(prefix)
 
             class_names.append(''.join( (prefix, options.get('bem.modifier'), m.group(2)) ))
@@ -112,11 +115,14 @@ def parse_bem(class_value=''):
     return BEMData(class_names, find_block_name(class_names))
 
 
-def get_block_name(ancestors: list, depth=0, context: dict=None, lookup={}):
+def get_block_name(ancestors: list, depth=0, context: dict=None, lookup: dict=None):
     """
     Returns block name for given `node` by `prefix`, which tells the depth of
     of parent node lookup
     """
+    if lookup is None:
+        lookup = {}
+
     max_parent_ix = 0
     parent_ix = max(len(ancestors) - depth, max_parent_ix)
     while max_parent_ix <= parent_ix:
